@@ -96,9 +96,12 @@ CLAIMED = {
              "instruction records; TLC runs the abstract machine on each length vector (text, aad, nonce, tag swept separately and "
              "mixed; thorough: every length 0..1100 / 1..300). Key, data, nonce, aad and scratch bytes are one abstract value, so "
              "each explored path covers ALL data values; a branch whose flags derive from data, or an access whose base derives "
-             "from data, is a violation; openAsm must take exactly one data-dependent branch (the verdict).",
+             "from data, is a violation; openAsm must take exactly one data-dependent branch (the verdict). Conformance: the real amd64 "
+             "routines are single-stepped under ptrace for two random data sets per length vector and the machine must follow "
+             "each recorded instruction sequence exactly; every arm64 TEXT symbol is run through the same machine (static).",
         note="Trusted: TLC/SANY, the opcode classification (vlib/asmx.py, fails closed on unknown opcodes/operands), the value semantics in "
-             "AsmMachine.tla, the Go assembler. arm64 is NOT covered yet (no arm64 semantics table); no dynamic PC-trace binding yet.",
+             "AsmMachine.tla, the Go assembler, ptrace single-stepping (drv asmtrace). arm64: all TEXT symbols run in the machine (static only; "
+             "on arm64 the GCM control flow is Go code and is not covered here).",
         ref="6 C09"),
     "C11": dict(
         technique="TLA+ abstract machine bounds check of every access of the extracted listing (symbolic placement) + TLC trace validation of guard-page executions (PROT_NONE before/after every buffer)",
@@ -108,7 +111,7 @@ CLAIMED = {
              "buffer ending at / beginning after an inaccessible page over text, aad and nonce lengths and tag sizes; TLC "
              "validates the values and any fault is an out-of-range access; short-buffer Encrypt/Decrypt must panic without "
              "touching bytes beyond the slice.",
-        note="Trusted: as C09, plus mmap/mprotect placement in the executor and debug.SetPanicOnFault. arm64 not covered.",
+        note="Trusted: as C09, plus mmap/mprotect placement in the executor and debug.SetPanicOnFault. arm64: static half only.",
         ref="6 C11"),
     "C12": dict(
         technique="TLA+ SignFlow/Reader machines (model-checked in MC_Reader) + EC definition; TLC trace validation of key generation, key test, derivation, curve test",
